@@ -599,6 +599,8 @@ int
 tun_setip(const char *ip, const char *other_ip, int netbits)
 {
 	char cmdline[512];
+	char ip_str[16];
+	struct in_addr ip_parsed;
 	int netmask;
 	struct in_addr net;
 	int i;
@@ -612,10 +614,19 @@ tun_setip(const char *ip, const char *other_ip, int netbits)
 	DWORD len;
 #else
 	const char *display_ip;
+# ifdef FREEBSD
+	char other_ip_str[16];
+	struct in_addr other_ip_parsed;
+# endif
 #ifndef LINUX
 	struct in_addr netip;
 #endif
 #endif
+
+	if (netbits < 1 || netbits > 32) {
+		fprintf(stderr, "Invalid netmask: %d!\n", netbits);
+		return 1;
+	}
 
 	netmask = 0;
 	for (i = 0; i < netbits; i++) {
@@ -624,20 +635,31 @@ tun_setip(const char *ip, const char *other_ip, int netbits)
 	netmask <<= (32 - netbits);
 	net.s_addr = htonl(netmask);
 
-	if (inet_addr(ip) == INADDR_NONE) {
+	ip_parsed.s_addr = inet_addr(ip);
+	if (ip_parsed.s_addr == INADDR_NONE) {
 		fprintf(stderr, "Invalid IP: %s!\n", ip);
 		return 1;
 	}
+	/* The addresses may come from the peer's login reply and inet_addr()
+	   accepts trailing garbage: only pass the parsed address, formatted
+	   again, on to the shell. */
+	snprintf(ip_str, sizeof(ip_str), "%s", inet_ntoa(ip_parsed));
 #ifndef WINDOWS32
 # ifdef FREEBSD
-	display_ip = other_ip; /* FreeBSD wants other IP as second IP */
+	other_ip_parsed.s_addr = inet_addr(other_ip);
+	if (other_ip_parsed.s_addr == INADDR_NONE) {
+		fprintf(stderr, "Invalid IP: %s!\n", other_ip);
+		return 1;
+	}
+	snprintf(other_ip_str, sizeof(other_ip_str), "%s", inet_ntoa(other_ip_parsed));
+	display_ip = other_ip_str; /* FreeBSD wants other IP as second IP */
 # else
-	display_ip = ip;
+	display_ip = ip_str;
 # endif
 	snprintf(cmdline, sizeof(cmdline),
 			IFCONFIGPATH "ifconfig %s %s %s netmask %s",
 			if_name,
-			ip,
+			ip_str,
 			display_ip,
 			inet_ntoa(net));
 
@@ -652,7 +674,7 @@ tun_setip(const char *ip, const char *other_ip, int netbits)
 
 		snprintf(cmdline, sizeof(cmdline),
 				ROUTEPATH "route add %s/%d %s",
-				inet_ntoa(netip), netbits, ip);
+				inet_ntoa(netip), netbits, ip_str);
 	}
 	fprintf(stderr, "Adding route %s/%d to %s\n", inet_ntoa(netip), netbits, ip);
 #endif
@@ -688,7 +710,7 @@ tun_setip(const char *ip, const char *other_ip, int netbits)
 	/* use netsh to set ip address */
 	fprintf(stderr, "Setting IP of interface '%s' to %s (can take a few seconds)...\n", if_name, ip);
 	snprintf(cmdline, sizeof(cmdline), "netsh interface ip set address \"%s\" static %s %s",
-		if_name, ip, inet_ntoa(net));
+		if_name, ip_str, inet_ntoa(net));
 	return system(cmdline);
 #endif
 }
